@@ -3,13 +3,13 @@ module verif/harness
 go 1.23
 
 require (
+	github.com/gorilla/websocket v1.4.2
 	github.com/takenet/lime-go v0.0.0
 	pgregory.net/rapid v1.3.0
 )
 
 require (
 	github.com/google/uuid v1.3.0 // indirect
-	github.com/gorilla/websocket v1.4.2 // indirect
 	go.uber.org/atomic v1.9.0 // indirect
 	go.uber.org/multierr v1.8.0 // indirect
 	golang.org/x/sync v0.0.0-20210220032951-036812b2e83c // indirect
